@@ -2,7 +2,7 @@
 import diffcheck
 import gen_c19
 
-WIDTH = {1: 1, 2: 1, 3: 1, 4: 1, 5: 3, 6: 1, 7: 1, 8: 1, 9: 0, 10: 1, 11: 1}
+WIDTH = {1: 1, 2: 1, 3: 1, 4: 1, 5: 3, 6: 1, 7: 1, 8: 1, 9: 0, 10: 1, 11: 1, 12: 1, 13: 1, 14: 1}
 
 
 def parse_k1(case, out):
@@ -114,15 +114,78 @@ def oracle_k1(case, out):
     for g in group_back:
         if g in seen:
             return "group message %d was handed back to the sender and also handled by actor %d" % (g, seen[g])
-    # names
+    # queued calls are released before post_stop finishes: the caller that post_stop waits for
+    # (op 14) has its answer while post_stop is still waiting
+    for o, r in zip(ops, res):
+        if o[0] == 14 and r == [9]:
+            return ("a call still queued when the actor stopped was not answered while post_stop was waiting "
+                    "for its caller (the reply port must be released before post_stop runs)")
+    # names: `holder[n]` = the spawn attempt that certainly holds name n at this point of the program
+    # (its pre_start is still running, or it started and nothing that could end it has happened yet)
+    holder = {}
+    spawn_idx = -1
+    idx_of_op = {}
+    info = {}           # actor index -> dict(name, cap, state)
     for k, (o, r) in enumerate(zip(ops, res)):
-        if o[0] == 5 and r[0] == 1:
-            if not any(p[0] == 1 and p[1] == o[1] and q in ([1], [5]) for p, q in zip(ops[:k], res[:k])):
+        code = o[0]
+        if code in (1, 12):
+            spawn_idx += 1
+            idx_of_op[k] = spawn_idx
+            name, cap, flags, sup = o[1], o[2], o[3], o[4]
+            if name:
+                h = holder.get(name)
+                if r == [1] and h is not None:
+                    return ("two spawns of name %d are alive at once: actor %d holds it (%s) and the spawn at "
+                            "operation %d succeeded as well" % (name, h, info[h]["state"], k))
+                if r == [2] and not any(p[0] in (1, 12) and p[1] == name and q in ([1], [5])
+                                        for p, q in zip(ops[:k], res[:k])):
+                    return "spawn reported NameTaken for a name nobody holds"
+                if r == [1]:
+                    if code == 12:
+                        info[spawn_idx] = dict(name=name, cap=cap, state="in pre_start", flags=flags, sup=sup)
+                        holder[name] = spawn_idx
+                    else:
+                        risky = (flags & 0x3f) != 0 or (sup and ops_flags_react(ops, sup - 1))
+                        info[spawn_idx] = dict(name=name, cap=cap, state="started", flags=flags, sup=sup)
+                        if not risky:
+                            holder[name] = spawn_idx
+        elif code == 13:
+            a = o[1]
+            if a in info and info[a]["state"] == "in pre_start":
+                name = info[a]["name"]
+                if r == [1]:
+                    info[a]["state"] = "started"
+                    fl, sup = info[a]["flags"], info[a]["sup"]
+                    if (fl & 0x3e) != 0 or (sup and ops_flags_react(ops, sup - 1)):
+                        holder.pop(name, None)
+                else:
+                    holder.pop(name, None)
+        elif code == 4 or (code in (2, 3) and o[3] in (1, 3)):
+            for n, h in list(holder.items()):
+                if h == o[1] and info[h]["state"] == "started":
+                    del holder[n]
+        elif code in (8, 11) and o[3] in (1, 3):
+            for n, h in list(holder.items()):
+                if info[h]["state"] == "started":
+                    del holder[n]
+        elif code == 5:
+            name = o[1]
+            h = holder.get(name)
+            if r[0] == 1 and not any(p[0] in (1, 12) and p[1] == name and q in ([1], [5])
+                                     for p, q in zip(ops[:k], res[:k])):
                 return "lookup found a name nobody registered"
-        if o[0] == 1 and r == [2]:
-            if not any(p[0] == 1 and p[1] == o[1] and q in ([1], [5]) for p, q in zip(ops[:k], res[:k])):
-                return "spawn reported NameTaken for a name nobody holds"
+            if h is not None:
+                if info[h]["state"] == "in pre_start" and r[0] == 1:
+                    return "name %d is visible although its only holder (actor %d) is still inside pre_start" % (name, h)
+                if info[h]["state"] == "started" and (r[0] != 1 or r[1] != info[h]["cap"]):
+                    return ("the registration of the live holder of name %d (actor %d, capacity %d) is gone or "
+                            "replaced: lookup returned %s" % (name, h, info[h]["cap"], r))
     return None
+
+
+def ops_flags_react(ops, sup_idx):
+    spawns = [o for o in ops if o[0] in (1, 12)]
+    return sup_idx < len(spawns) and (spawns[sup_idx][3] & 16) != 0
 
 
 def oracle_k2(case, out):
@@ -213,7 +276,7 @@ def oracle_k3(case, out):
 class C19(diffcheck.DiffProp):
     pid = "C19"
     manifest = dict(
-        text="Coq proofs over labelled transition systems of compio-actor in which every atomic operation on shared state (is_closed check, try_send, stop swap / push, each poll of the biased select, begin_stop, each hook, the receiver's drain and disconnection, task cancellation) is one label, for any number of sending/stopping threads and every interleaving: accepted = handled ++ dropped ++ queued (serial FIFO, at most one handler in progress, the head of the queue is the only message that can be taken next, an idle actor has handled everything it accepted), the lifecycle trace has the documented shape on every exit path, every accepted call has its reply port used or dropped once the actor is gone (with the repaired receiver; a witness shows the hang of the code before the fix), the registry maps a name to at most one holder / is invisible before activation / free after release, and ProcessGroup::send (pure function) delivers to exactly one live non-full member or hands the message back after trying every member once, evicting exactly the closed ones. Tied to the code by exact comparison of deterministic actor programs with the extracted interpreter, acceptance of logs recorded from concurrent threads by the extracted LTS (search over the silent steps), and an oracle on the implementation's outputs.",
+        text="Coq proofs over labelled transition systems of compio-actor in which every atomic operation on shared state (is_closed check, try_send, stop swap / push, each poll of the biased select, begin_stop, each hook, the receiver's drain and disconnection, task cancellation) is one label, for any number of sending/stopping threads and every interleaving: accepted = handled ++ dropped ++ queued (serial FIFO, at most one handler in progress, the head of the queue is the only message that can be taken next, an idle actor has handled everything it accepted), the lifecycle trace has the documented shape on every exit path, the mailbox is closed, drained and disconnected before post_stop starts (every queued call already has its error while post_stop runs), every accepted call has its reply port used or dropped once the actor is gone (with the repaired receiver; a witness shows the hang of the code before the fix), the registry maps a name to at most one holder / the reservation (not the activation) refuses a second spawn of a held name and leaves the holder's registration untouched / is invisible before activation / free after release, and ProcessGroup::send (pure function) delivers to exactly one live non-full member or hands the message back after trying every member once, evicting exactly the closed ones. Tied to the code by exact comparison of deterministic actor programs with the extracted interpreter, acceptance of logs recorded from concurrent threads by the extracted LTS (search over the silent steps), and an oracle on the implementation's outputs.",
         note="flume is an assumed linearizable FIFO whose queued items live while a sender lives; the handlers' behaviour is scripted; weak memory is not modelled. Known finding C19-late-push (reproduced on the real crate by forced schedules through compio_actor::verif scheduling points, corpus cases `4 1`, `4 2`; witness lemma C19_call_answered_no_exception_refuted): the window is proved precisely, not closed: a send that passed its closed-check before the mailbox closed and pushes between the receiver's drain and its disconnection is stranded (C19_call_answered names it `late`; on the finish() paths C19_late_only_overlap shows only such overlapping sends can be late). Cancellation by Cluster::join skips pre_stop/post_stop (modelled as the label ECancel; the trace is then a prefix). Concurrent process-group programs are judged by the oracle only; their routing is proved on the pure function and compared exactly on deterministic programs. Trusted: Coq kernel, extraction + driver, harness/ext/src/bin/c19.rs, tools/p_c19.py. No axioms.",
         technique="Coq invariant proofs over LTSs + pure-function theorem; exact differential of deterministic programs; log acceptance by the extracted LTS; oracle")
     prop_file = "prop/C19.v"
@@ -229,7 +292,8 @@ class C19(diffcheck.DiffProp):
             "stop, lookup, gate release, group join/leave/send/call/len, 1..4 workers, graceful end or Cluster::join; "
             "kind 2: 1..4 threads x 1..6 operations (send/call/stop) on one mailbox of capacity 1..8; "
             "kind 3: 1..4 threads joining/leaving/sending through one process group over 1..4 actors (some stopped before); "
-            "kind 4 (corpus): two forced schedules of the drain/disconnect window. "
+            "kind 4 (corpus): two forced schedules of the drain/disconnect window; kind 5: post_stop waiting for 1..4 concurrent callers of queued calls. "
+            "kind 1 includes the reservation window (same-name spawns while a gated pre_start is running) and post_stop waiting for the caller of a queued call. "
             "non-trivial = at least one handler ran; distinct = distinct programs")
     trusted_base = [
         "Coq 8.16.1 kernel (coqc, full .vo build)",
@@ -250,6 +314,8 @@ class C19(diffcheck.DiffProp):
             return [2, case[2]] + out[1:]
         if case[:1] == [3]:
             return [3]
+        if case[:1] == [5]:
+            return [5]
         return case
 
     def model_expected(self, case, out):
@@ -259,6 +325,8 @@ class C19(diffcheck.DiffProp):
             return [1, out[0]]
         if case[:1] == [3]:
             return [3]
+        if case[:1] == [5]:
+            return [5]
         return out
 
     def oracle(self, case, out):
@@ -273,6 +341,15 @@ class C19(diffcheck.DiffProp):
             return oracle_k2(case, out)
         if k == 3:
             return oracle_k3(case, out)
+        if k == 5:
+            if len(out) != 1 + case[3]:
+                return "malformed harness output"
+            if out[0] == 9:
+                return ("the actor never exited: post_stop waits for the callers of the calls that were queued, "
+                        "and they never got their answer (deadlock)")
+            if any(x == 9 for x in out[1:]):
+                return "a call was never answered"
+            return None
         if k == 4:
             if len(out) != 3:
                 return "malformed harness output"
